@@ -55,6 +55,13 @@ var snippets = [][]byte{
 	[]byte("b'"), []byte("${"), []byte("{$"), []byte("->"), []byte("::"), []byte("..."), []byte("<"), []byte("`"),
 }
 
+var delimiters = []string{";", ",", ")", "]", "}", "(", "[", "{"}
+
+// runnable: texts of the side-effect-free families may be executed when they are accepted.
+func runnable(base string) bool {
+	return strings.HasPrefix(base, "gen:") || strings.HasPrefix(base, "tmpl:")
+}
+
 var alphabet = []byte("$\"'{}()[]<>?\\/*#=-+.,;:&|!@%~^ab0_ \n\xe3\x80\xff")
 
 func buildCases(e *lib.Env, bs []base) []cspec {
@@ -84,6 +91,9 @@ func buildCases(e *lib.Env, bs []base) []cspec {
 	stride := e.Pick(10, 1)
 	rs := e.Rand("stratify")
 	for bi, b := range bs {
+		if strings.HasPrefix(b.Name, "tmpl:") {
+			continue
+		}
 		isGen := strings.HasPrefix(b.Name, "gen:")
 		fam := "corpus"
 		if isGen {
@@ -109,6 +119,39 @@ func buildCases(e *lib.Env, bs []base) []cspec {
 		}
 	}
 
+	// (a') construct templates (one per parser file / branch): whole text, every token-boundary
+	// prefix, every single-token deletion and duplication, and every replacement of a token by
+	// each delimiter — in place, and as the last token of the text. Complete in the thorough
+	// tier; in the quick tier every prefix and deletion, a third of the duplications and one
+	// seeded delimiter per token.
+	rt := e.Rand("templates")
+	for bi, b := range bs {
+		if !strings.HasPrefix(b.Name, "tmpl:") {
+			continue
+		}
+		add(cspec{ID: b.Name + ":whole", Fam: "tmpl", Base: bi, Op: "whole", Run: true})
+		n := len(b.Bounds)
+		for i := 0; i <= n; i++ {
+			add(cspec{ID: fmt.Sprintf("%s:prefix:%d", b.Name, i), Fam: "tmpl", Base: bi, Op: "prefix", I: i, Run: true})
+		}
+		dupOff := rt.Intn(3)
+		for i := 0; i < n; i++ {
+			add(cspec{ID: fmt.Sprintf("%s:del:%d", b.Name, i), Fam: "tmpl", Base: bi, Op: "del", I: i, Run: true})
+			if !e.Quick() || i%3 == dupOff {
+				add(cspec{ID: fmt.Sprintf("%s:dup:%d", b.Name, i), Fam: "tmpl", Base: bi, Op: "dup", I: i, Run: true})
+			}
+			one, cutOne := rt.Intn(len(delimiters)), rt.Intn(2*len(delimiters))
+			for di, dl := range delimiters {
+				if !e.Quick() || di == one {
+					add(cspec{ID: fmt.Sprintf("%s:sub:%d:%s", b.Name, i, dl), Fam: "tmpl", Base: bi, Op: "sub", I: i, Raw: []byte(dl), Run: true})
+				}
+				if !e.Quick() || di == cutOne {
+					add(cspec{ID: fmt.Sprintf("%s:cutsub:%d:%s", b.Name, i, dl), Fam: "tmpl", Base: bi, Op: "cutsub", I: i, Raw: []byte(dl), Run: true})
+				}
+			}
+		}
+	}
+
 	// (c) byte-level mutations of (a) and (b)
 	rb := e.Rand("bytes")
 	pick := func() int { return rb.Intn(len(bs)) }
@@ -129,12 +172,12 @@ func buildCases(e *lib.Env, bs []base) []cspec {
 	nmb := e.Pick(1200, 30000)
 	if nmb >= len(mbs) {
 		for _, m := range mbs {
-			add(cspec{ID: fmt.Sprintf("%s:cut:%d", bs[m.b].Name, m.off), Fam: "bytes", Base: m.b, Op: "cut", I: m.off, Run: strings.HasPrefix(bs[m.b].Name, "gen:")})
+			add(cspec{ID: fmt.Sprintf("%s:cut:%d", bs[m.b].Name, m.off), Fam: "bytes", Base: m.b, Op: "cut", I: m.off, Run: runnable(bs[m.b].Name)})
 		}
 	} else {
 		for _, k := range rb.Perm(len(mbs))[:nmb] {
 			m := mbs[k]
-			add(cspec{ID: fmt.Sprintf("%s:cut:%d", bs[m.b].Name, m.off), Fam: "bytes", Base: m.b, Op: "cut", I: m.off, Run: strings.HasPrefix(bs[m.b].Name, "gen:")})
+			add(cspec{ID: fmt.Sprintf("%s:cut:%d", bs[m.b].Name, m.off), Fam: "bytes", Base: m.b, Op: "cut", I: m.off, Run: runnable(bs[m.b].Name)})
 		}
 	}
 	// insertion of a lexically dangerous snippet (in place, or as the last bytes of a truncation)
@@ -151,7 +194,7 @@ func buildCases(e *lib.Env, bs []base) []cspec {
 		if rb.Intn(2) == 0 {
 			op = "insend"
 		}
-		add(cspec{ID: fmt.Sprintf("%s:%s:%d:%x", b.Name, op, off, sn), Fam: "bytes", Base: bi, Op: op, I: off, Raw: sn, Run: strings.HasPrefix(b.Name, "gen:")})
+		add(cspec{ID: fmt.Sprintf("%s:%s:%d:%x", b.Name, op, off, sn), Fam: "bytes", Base: bi, Op: op, I: off, Raw: sn, Run: runnable(b.Name)})
 	}
 	// bit flips
 	for k := 0; k < e.Pick(1200, 20000); k++ {
@@ -159,7 +202,7 @@ func buildCases(e *lib.Env, bs []base) []cspec {
 		b := bs[bi]
 		off := rb.Intn(len(b.Src))
 		bit := rb.Intn(8)
-		add(cspec{ID: fmt.Sprintf("%s:flip:%d.%d", b.Name, off, bit), Fam: "bytes", Base: bi, Op: "flip", I: off, J: bit, Run: strings.HasPrefix(b.Name, "gen:")})
+		add(cspec{ID: fmt.Sprintf("%s:flip:%d.%d", b.Name, off, bit), Fam: "bytes", Base: bi, Op: "flip", I: off, J: bit, Run: runnable(b.Name)})
 	}
 	// block repeats of token ranges
 	for k := 0; k < e.Pick(300, 4000); k++ {
@@ -175,11 +218,15 @@ func buildCases(e *lib.Env, bs []base) []cspec {
 		if len(b.Src)+(en-s+1)*reps > maxInput {
 			reps = 3
 		}
-		add(cspec{ID: fmt.Sprintf("%s:rep:%d+%dx%d", b.Name, i, span, reps), Fam: "bytes", Base: bi, Op: "rep", I: i, J: reps, Raw: []byte{byte(span)}, Run: strings.HasPrefix(b.Name, "gen:")})
+		add(cspec{ID: fmt.Sprintf("%s:rep:%d+%dx%d", b.Name, i, span, reps), Fam: "bytes", Base: bi, Op: "rep", I: i, J: reps, Raw: []byte{byte(span)}, Run: runnable(b.Name)})
 	}
 
 	// nesting stressors (stack depth / rescans), depth up to 10^4
 	for _, c := range nestCases(e) {
+		add(c)
+	}
+	// enumerated families: HTML directive attributes, interpolation bodies, open-tag positions
+	for _, c := range enumFamilies() {
 		add(c)
 	}
 
@@ -265,6 +312,18 @@ func nestCases(e *lib.Env) []cspec {
 		{"new", "new A(", "", ")"},
 		{"arr-kv", "['k'=>", "1", "]"},
 		{"arr-var-first", "[$a, ", "1", "]"},
+		{"arr-2vars", "[$a, $b, ", "1", "]"},
+		{"arr-3vars", "[$a, $b, $c, ", "1", "]"},
+		{"arr-old-2vars", "array($a, $b, ", "1", ")"},
+		{"list-2vars", "list($a, $b, ", "$c", ")"},
+		{"call-2vars", "f($a, $b, ", "1", ")"},
+		{"echo-2vars", "echo $a, $b, ", "2", ""},
+		{"kv-var-first", "[$a => $b, $c => ", "1", "]"},
+		{"obj-literal", "{a: ", "1", "}"},
+		{"html-tag", "<div>", "x", "</div>"},
+		{"html-if-tag", "<p if=\"$a\">", "x", "</p>"},
+		{"namespace-block", "namespace A { ", "echo 1;", " }"},
+		{"interp-nest", "\"{$a[\"", "k", "\"]}\""},
 		{"echo-list", "echo 1, $a, ", "2", ""},
 		{"call-var-first", "f($a, ", "1", ")"},
 		{"openonly-paren", "(", "", ""},
@@ -316,5 +375,71 @@ func nestCases(e *lib.Env) []cspec {
 		}
 	}
 	_ = rand.Int
+	return cs
+}
+
+// enumFamilies builds small enumerated input classes that token-level mutation of whole
+// programs reaches only by luck:
+//   - htmlattr: HTML elements whose directive attributes (if / else-if / else / for) are
+//     missing a value, malformed, duplicated or misplaced, as a script-mode HTML statement, as
+//     an HTML expression in PHP code and inside a <!DOCTYPE document (HTML lexer);
+//   - interp: bodies of the three interpolation forms {$..} ${..} @{..} and of $var suffixes
+//     inside double-quoted strings and heredocs, including empty and unterminated ones;
+//   - tagpos: inline HTML made of invalid UTF-8 / case-changing runes in front of an opening
+//     tag that sits in the last bytes of the text (offset arithmetic of the tag search).
+func enumFamilies() []cspec {
+	var cs []cspec
+	add := func(fam, id, text string, run bool) {
+		cs = append(cs, cspec{ID: fam + ":" + id, Fam: fam, Base: -1, Op: "raw", Raw: []byte(text), Run: run})
+	}
+	attrs := []string{
+		`if`, `if=""`, `if="$a"`, `if=$a`, `if="$a >"`, `if="("`, `if='$a'`, `if="$a" if="$b"`, `if={$a}`, `if="`,
+		`else`, `else=""`, `else="$a"`, `else-if`, `else-if=""`, `else-if="$a"`, `else-if="$a" else`,
+		`for`, `for=""`, `for="$x"`, `for="$x in"`, `for="in $xs"`, `for="$x in $xs"`, `for="$i, $x in $xs"`, `for="$x of $xs"`, `for=$x`,
+		`if="$a" for="$x in $xs"`, `for="$x in $xs" else`, `if else`, `class="c" if`, `if class="c"`, `:if="$a"`, `@click="f()"`, `{$a}`, `if="{$a}"`,
+	}
+	skeletons := []struct{ name, pre, post string }{
+		{"first", `<div><p `, `>a</p><p>b</p></div>`},
+		{"second", `<div><p if="$a">a</p><p `, `>b</p></div>`},
+		{"third", `<div><p if="$a">a</p><p else-if="$b">b</p><p `, `>c</p><p>d</p></div>`},
+		{"alone", `<p `, `>a</p>`},
+		{"item", `<ul><li `, `>{$x}</li></ul>`},
+		{"void", `<div><br `, `><input ` + "`" + `type="text"></div>`},
+		{"selfclose", `<div><img src="a" `, `/><p>b</p></div>`},
+	}
+	wraps := []struct{ name, pre, post string }{
+		{"script", "", "\n"},
+		{"expr", "<?php\n$a = 1; $b = 0; $xs = [1, 2];\n$h = ", ";\necho 1;\n"},
+		{"doctype", "<!DOCTYPE html>\n<html><body>\n", "\n</body></html>\n"},
+	}
+	for _, w := range wraps {
+		for _, sk := range skeletons {
+			post := strings.ReplaceAll(sk.post, "`", "")
+			for ai, a := range attrs {
+				add("htmlattr", fmt.Sprintf("%s:%s:%d", w.name, sk.name, ai), w.pre+sk.pre+a+post+w.post, true)
+			}
+		}
+	}
+	bodies := []string{
+		`@{}`, `@{`, `@{ }`, `@{$a}`, `@{$a + }`, `@{1 +}`, `@{{}}`, `@{}}`, `@{;}`, `@{$a;}`, `@{@{$a}}`,
+		`{$}`, `{$a`, `{$a[}`, `{$a[0}`, `{$a->}`, `{$a->b(}`, `{$a + }`, `{$a;}`, `{$ a}`, `{$$a}`, `{$a[}]}`, `{$a["k"]["q"}`,
+		`${}`, `${a`, `${a[}`, `${a[0]}`, `${ }`, `${1}`, `${a + 1}`,
+		`$a[`, `$a[0`, `$a[]`, `$a[k`, `$a->`, `$a->b->`, `$a[$b]`, `$a[-1]`, `$a->b[0]`, `$`, `$$`, `$1`, `\\{$a}`, `{\\$a}`, `$.SERVER(`, `$.SERVER($a)`,
+	}
+	for bi, b := range bodies {
+		add("interp", fmt.Sprintf("dq:%d", bi), "<?php\n$a = [\"k\" => [\"q\" => 1], 1]; $b = 0;\necho \"a"+b+"b\";\n", true)
+		add("interp", fmt.Sprintf("dq-assign:%d", bi), "<?php\n$a = 1;\n$s = \"x "+b+"\" . 'y';\necho 1;\n", true)
+		add("interp", fmt.Sprintf("heredoc:%d", bi), "<?php\n$a = [1];\n$s = <<<EOT\nl "+b+" r\nEOT;\necho 1;\n", true)
+		add("interp", fmt.Sprintf("html:%d", bi), "<div class=\"c\">t "+b+"</div>\n", true)
+	}
+	junk := []string{"\xff", "\xe3\x80", "\xc4\xb0", "\xe2\x84\xaa", "\xc3", "\xf0\x9f", "A\xff", "<\xff?", "<?\xff"}
+	tails := []string{"<?php", "<?php ", "<?php 1;", "<?php echo 1;", "<?php echo 1; ?>x", "<?PHP echo 1;", "<?Php 1;", "<?php\n", "<?php ?>", "<?php echo 1; ?>\xff<?php 2;"}
+	for ji, j := range junk {
+		for _, k := range []int{1, 2, 3, 8, 40} {
+			for ti, t := range tails {
+				add("tagpos", fmt.Sprintf("%d:%d:%d", ji, k, ti), strings.Repeat(j, k)+t, false)
+			}
+		}
+	}
 	return cs
 }
